@@ -592,6 +592,15 @@ def item_relative_view(repo, out):
     exclusive = m.group(2) == 'True'
     m = _match(r'forprefixin(reversed\(telstate\.prefixes\[:-1\]\)|telstate\.prefixes\[:-1\]):;view=view\.view\(prefix\+name\)', body[2],
                what + ' loop')
+    # the call sites: the type of every archived stream and the attributes of the L1 / L2 cal streams are read through it
+    reg = _func(_class(_parse(repo, rel), 'VisibilityDataV4', rel), '_register_standard_cal_streams', rel)
+    rsrc = _u(reg)
+    for need, n in (('attrs=self.source.metadata.attrs', 1), ("archived_streams=attrs.get('sdp_archived_streams',[])", 1),
+                    ('stream_attrs=_relative_view(attrs,stream)', 1), ("stream_type=stream_attrs.get('stream_type')", 1),
+                    ('l1_attrs=_relative_view(attrs,l1_stream)', 1), ('l2_attrs=_relative_view(attrs,l2_streams[0])', 1),
+                    ('.view(', 0), ('_relative_view(', 3)):
+        if rsrc.count(need) != n:
+            raise TranslateError('_register_standard_cal_streams: expected %d x `%s`, found %d' % (n, need, rsrc.count(need)))
     out.append('Definition rv_exclusive : bool := %s.' % _bool(exclusive))
     out.append('Definition rv_reversed : bool := %s.' % _bool(m.group(1).startswith('reversed')))
 
